@@ -113,6 +113,7 @@ type rawServer struct {
 	n     int
 	hangLn net.Listener
 	held   []net.Conn
+	msgs   []string // text frames received from clients
 }
 
 func (s *rawServer) handler(w http.ResponseWriter, r *http.Request) {
@@ -129,9 +130,13 @@ func (s *rawServer) handler(w http.ResponseWriter, r *http.Request) {
 		// read for ever (gorilla answers pings from inside ReadMessage); `mute` interrupts the read with a deadline in
 		// the past, after which nothing is read and no ping is answered any more
 		for {
-			if _, _, err := c.ReadMessage(); err != nil {
+			_, data, err := c.ReadMessage()
+			if err != nil {
 				return
 			}
+			s.mu.Lock()
+			s.msgs = append(s.msgs, string(data))
+			s.mu.Unlock()
 		}
 	}()
 }
